@@ -25,23 +25,47 @@ type walHandle interface {
 	cs.WAL
 }
 
-// openWAL does what ConsensusState.OpenWAL does: NewWAL + Start. It reports whether the
-// head file was empty/absent beforehand (observed on the file system, not asked from
-// the WAL): in that case OnStart writes EndHeightMessage{0}.
-func openWAL(path string) (w walHandle, headWasEmpty bool, err error) {
-	st, serr := os.Stat(path)
-	headWasEmpty = serr != nil || st.Size() == 0
+// openWAL does what ConsensusState.OpenWAL does: NewWAL + Start. It returns the bytes that
+// Start itself appended to the head file (observed on the file system): OnStart writes
+// EndHeightMessage{0} into an empty head, and that record is part of the written sequence.
+func openWAL(path string) (w walHandle, appended []byte, err error) {
+	before := int64(0)
+	if st, serr := os.Stat(path); serr == nil {
+		before = st.Size()
+	}
 	bw, err := cs.NewWAL(path)
 	if err != nil {
-		return nil, headWasEmpty, err
+		return nil, nil, err
 	}
 	if err := bw.Start(); err != nil {
-		return nil, headWasEmpty, err
+		return nil, nil, err
 	}
-	// the background ticker must never decide anything: with limit 0 its size check is a no-op;
-	// rotation is driven by explicit ticks (see tick).
+	// the background ticker must never decide anything: with limits 0 both of its checks are
+	// no-ops; rotation is driven by explicit ticks (see tick).
 	bw.Group().SetHeadSizeLimit(0)
-	return bw, headWasEmpty, nil
+	bw.Group().SetTotalSizeLimit(0)
+	if b, rerr := ioutil.ReadFile(path); rerr == nil && int64(len(b)) > before {
+		appended = b[before:]
+	}
+	return bw, appended, nil
+}
+
+// initialRecord judges what Start appended: exactly one well-formed record that decodes to an
+// end-height marker (the node relies on EndHeightMessage{0} opening a fresh log).
+func initialRecord(appended []byte) (cs.WALMessage, *viol) {
+	recs, _, why := parseFrames(appended)
+	if why != "" || len(recs) != 1 {
+		return nil, &viol{"start/initial-write-malformed", fmt.Sprintf("Start appended %d bytes that are not exactly one framed record (%d records, %s)", len(appended), len(recs), why), nil}
+	}
+	d, err := cs.NewWALDecoder(bytes.NewReader(appended)).Decode()
+	if err != nil {
+		return nil, &viol{"start/initial-write-malformed", "the record appended by Start does not decode: " + err.Error(), nil}
+	}
+	m, ok := d.Msg.(cs.EndHeightMessage)
+	if !ok {
+		return nil, &viol{"start/initial-write-unexpected", "Start appended " + cs.VerifWALDescribe(d.Msg), nil}
+	}
+	return m, nil
 }
 
 func closeWAL(w walHandle) {
@@ -49,20 +73,20 @@ func closeWAL(w walHandle) {
 	w.Wait()
 }
 
-// tick performs, through the exported API, exactly the steps of Group.checkHeadSizeLimit
-// (what the group's ticker goroutine does every 5 s in production) with the given limit.
+// tick performs the steps of Group.checkHeadSizeLimit (what the group's ticker goroutine does
+// every 5 s in production: compare Head.Size() with the head size limit, RotateFile() when it is
+// reached) at a generated point of the plan. The limit is kept in the plan and is never installed
+// in the group: the group's own limits stay 0, so the real ticker goroutine (whose timing is not
+// under the harness' control) never rotates or scans concurrently.
 func tick(g *auto.Group, limit int64) (rotated bool) {
-	g.SetHeadSizeLimit(limit)
-	defer g.SetHeadSizeLimit(0)
-	l := g.HeadSizeLimit()
-	if l == 0 {
+	if limit == 0 {
 		return false
 	}
 	size, err := g.Head.Size()
 	if err != nil {
 		panic(err)
 	}
-	if size >= l {
+	if size >= limit {
 		g.RotateFile()
 		return true
 	}
@@ -196,15 +220,21 @@ func execPlan(p *plan, dir string) (w walHandle, L *layout, vs []viol) {
 		L.Kinds = append(L.Kinds, kind)
 	}
 	open := func() bool {
-		var empty bool
+		var app []byte
 		var err error
-		w, empty, err = openWAL(path)
+		w, app, err = openWAL(path)
 		if err != nil {
 			vs = append(vs, viol{"write/open-error", err.Error(), nil})
 			return false
 		}
-		if empty {
-			add(cs.EndHeightMessage{Height: 0}, "endheight")
+		if len(app) > 0 {
+			m, v := initialRecord(app)
+			if v != nil {
+				vs = append(vs, *v)
+				closeWAL(w)
+				return false
+			}
+			add(m, "endheight")
 		}
 		return true
 	}
